@@ -20,7 +20,7 @@ func selftestMain(args []string) int {
 	defer os.RemoveAll(dir)
 	verifDir = dir
 	rc := 0
-	for _, id := range []string{"CONF", "RECONF"} {
+	for _, id := range []string{"CONF", "ENVCONF", "RECONF"} {
 		if id == "RECONF" {
 			os.Setenv("GOSYM_FORCE_RE", "1")
 		}
